@@ -303,11 +303,18 @@ class TempDirChecker(object):
         if acq.dir_expr is not None:
             v = strip_identity(db, fi, acq.dir_expr)
             if isinstance(v, ast.Name):
+                # every acquisition of this frame with the definitions
+                # that hold its value (through copies / Path() wrappers)
+                frame_acqs = []
+                for d0 in rd.defs:
+                    if d0.kind == 'assign' and d0.stmt is not None \
+                            and _is_acquisition_value(db, fi, d0.value):
+                        frame_acqs.append(self._derived_defs(fi, d0.stmt))
                 for n in nodes:
                     for d in rd.reaching(v.id, n.id):
-                        if d.kind == 'assign' and _is_acquisition_value(
-                                db, fi, d.value):
-                            parents |= self._derived_defs(fi, d.stmt)
+                        for ds in frame_acqs:
+                            if d.id in ds:
+                                parents |= ds
             elif isinstance(v, ast.Attribute) and isinstance(
                     v.value, ast.Name) and v.value.id == 'self' \
                     and fi.cls is not None:
